@@ -84,4 +84,14 @@ theorem store_records_status :
     ∧ "origin.WriteHeader:code" ∈ storeWriteHeaderEvents
     ∧ "set:Status=code" ∈ storeWriteHeaderEvents := by decide
 
+/-- `Flush` and `FlushError` record the implicit 200 (`if Status == 0 { WriteHeader(200) }`, via
+    `markFlushed`) in every branch BEFORE the origin flushes and sends it -/
+theorem flush_records_status :
+    storeFlushImplicit = some (0, 200)
+    ∧ prog.flushImplicit = prog.writeImplicit
+    ∧ storeFlushEvents.count "origin.Flush" = 1
+    ∧ (storeFlushErrorEvents.count "origin.Flush" + storeFlushErrorEvents.count "origin.FlushError"
+        = storeFlushErrorEvents.count "markFlushed" + storeFlushErrorEvents.count "WriteHeader:200") := by
+  decide
+
 end Glb.Tie.Relay
